@@ -20,7 +20,7 @@ def cov_c07(st, tier):
 
 
 ENGINES = [
-    {"name": "E-A netsim", "path": "engine/", "serves_properties": ["C01", "C02", "C10", "C14", "C15"], "kind_free_text": "real client + real server main loops as coroutines in one process under a virtual clock/network/tun; fork-at-choice-point DFS over per-datagram fates, deviation-bounded"},
+    {"name": "E-A netsim", "path": "engine/", "serves_properties": ["C01", "C02", "C06", "C10", "C14", "C15"], "kind_free_text": "real client + real server main loops as coroutines in one process under a virtual clock/network/tun; fork-at-choice-point DFS over per-datagram fates, deviation-bounded"},
     {"name": "E-B adversary", "path": "engine/", "serves_properties": ["C03", "C04", "C05", "C12", "C13", "C14", "C15", "C16", "C20"], "kind_free_text": "depth-bounded explicit-state search over message alphabets against the real server/client loop, exact-state hashing of the whole image"},
     {"name": "E-C enumerators", "path": "props/", "serves_properties": ["C07", "C08", "C09", "C17", "C18", "C19"], "kind_free_text": "exhaustive enumeration of finite input families through the real pure functions, compared with independent references"},
 ]
@@ -258,7 +258,32 @@ def cov_c05(st, tier):
     }
 
 
+def cov_c06(st, tier):
+    return {
+        "states": st["execs"], "transitions": st["transitions"], "traces_validated_against_impl": st["execs"],
+        "evaluations": st["substitutions"], "distinct_nontrivial": st["distinct_outcomes"],
+        "rule": "state = end state of one complete execution (real handshake + tunnelling of the real client against the real server) in which exactly one answer was replaced by one hostile menu item; "
+                "transition = one substitution or one honestly delivered answer. The honest run reaches each answer once; at each answer one child per menu item is forked (deviation bound 1 over all answers of the run). "
+                "distinct = distinct (cell, handshake result, client end state, exit code, tun writes) classes",
+        "cells": st["cells"], "answers_in_honest_runs": st["answers_in_honest_runs"], "substitutions": st["substitutions"], "unmatched_reply_checks": st["unmatched_reply_checks"],
+        "runs_where_handshake_completed": st["handshakes_completed"], "runs_where_handshake_failed": st["handshakes_failed"], "runs_where_client_exited": st["client_exits"], "sanitizer_reports": st["sanitizer_reports"],
+        "bounds": {"deviations": 1, "menu": "truncations; header counts, RCODEs, QR/TC, ids; RDLENGTH and type variants; pointer loops / forward pointers in owner, question and target names; TXT chunkings and every prefix byte; "
+                                            "hostname prefix bytes, over-long labels, preferences, 250/251/260-record MX/SRV sets; genuine answers (server's real writer) with every step-specific payload, lengths 3..8000, "
+                                            "data headers x bodies (valid, invalid zlib, inflating to 66000 bytes); raw frames of all lengths/nibbles in raw mode",
+                   "cells": "autodetect/NULL, TXT/base128, MX/base32, raw mode" + (" + CNAME, SRV, A, PRIVATE, TXT/raw, TXT/base64u, NULL -m 1200 (lazy and immediate)" if tier == "thorough" else "")},
+    }
+
+
 PROPS = {
+    "C06": {
+        "harness": "C06.c", "flavor": "asan", "engine": "E-A netsim",
+        "tiers": {"quick": {"budget_s": 600}, "thorough": {"budget_s": 2400}},
+        "coverage": cov_c06,
+        "level_text": "The real client (ASan+UBSan build) runs its real handshake and tunnel loop against the real server. At every answer on its way to the client the explorer forks one child per item of a hostile menu derived from that honest answer (400-1000 items: truncations, header/count/RCODE/id changes, RDLENGTH and type changes, pointer loops, TXT chunkings and all 256 codec prefix bytes, hostname label and preference abuse, 250+ record sets, genuine answers built by the server's real writer carrying every step-specific payload, oversized bodies and every data-header combination, raw frames); the child delivers the item instead and the run continues honestly, so every later handshake step and the tunnel phase still execute. No sanitizer report, no crash, no wall-clock overrun in any execution; an answer whose DNS id matches none of the client's three latest queries must cause no tun write and leave the client's reassembly state unchanged.",
+        "level_note": "One substitution per execution (deviation bound 1); sequences of two hostile answers are not explored. Menu families, not all byte strings. The documented give-up paths (errx(4) on failed IP/MTU set-up, handshake failure) are allowed outcomes.",
+        "technique": "stateless model checking of the real client+server in a virtual world: at every answer, exhaustive substitution from a hostile menu (deviation bound 1, fork-at-choice-point), sanitizer oracle",
+        "assumptions": EA_ASSUME,
+    },
     "C05": {
         "harness": "C05.c", "flavor": "asan", "images": (("s", "server"),), "engine": "E-B adversary",
         "tiers": {"quick": {"budget_s": 120}, "thorough": {"budget_s": 900}},
